@@ -548,6 +548,19 @@ Proof.
   intros senv1 senv2 Hag. exact (spec_den_agree act dic0 tinfo senv1 senv2 Hag fuel key its Hs).
 Qed.
 
+(* C13's own model of the tail of convertMCNPGeometry ([finish]: renumber_surfaces,
+   remove_empty_volumes, remove_unused_volumes, tied to the code by tie:finish)
+   and C01's model of the same lines ([prune]) compute the same volume table, up
+   to the representation of the PLUS / MINUS sets (sorted lists vs order of first
+   insertion: [same_set]) and of the operands (Z vs option Z): whenever finish
+   succeeds on a table, C01's prune succeeds on every related table, with the
+   renumbering of the same option setting, and the results are related *)
+From T4V Require Import C13.LinkC01Prune.
+Theorem C13_finish_is_c01_prune_linked : forall T (S : Scalar T) skip surfs volus u0 u1 s' v3 w d,
+  finish S skip surfs volus u0 u1 = Ok (s', v3, w) -> vols_rel volus d ->
+  exists d', C01.Model.prune u0 u1 (c01_rn S skip surfs) d = C01.Model.Ok d' /\ vols_rel v3 d'.
+Proof. exact @finish_is_c01_prune. Qed.
+
 (* non-vacuity of the link: both stage-1 tables of C13_example_options run through
    C01's loop and prune (with and without a renumbering) and leave the same
    non-FICTIVE volumes 2, 12, 13 *)
@@ -639,7 +652,7 @@ Print Assumptions C13_family_fill.
 
 (* composed with C01 (conversion loop, prune, written): the property for two option vectors *)
 Theorem C13_family_linked :
-  ltac:(let t := type of (conj C13_merged_surfaces_equal_senses (conj C13_options_same_written_linked (conj C13_options_same_written_dedup_linked (conj C13_options_same_written_provenance_linked C13_options_same_written_tr_linked)))) in exact t).
-Proof. exact (conj C13_merged_surfaces_equal_senses (conj C13_options_same_written_linked (conj C13_options_same_written_dedup_linked (conj C13_options_same_written_provenance_linked C13_options_same_written_tr_linked)))). Qed.
+  ltac:(let t := type of (conj C13_merged_surfaces_equal_senses (conj C13_options_same_written_linked (conj C13_options_same_written_dedup_linked (conj C13_options_same_written_provenance_linked (conj C13_options_same_written_tr_linked C13_finish_is_c01_prune_linked))))) in exact t).
+Proof. exact (conj C13_merged_surfaces_equal_senses (conj C13_options_same_written_linked (conj C13_options_same_written_dedup_linked (conj C13_options_same_written_provenance_linked (conj C13_options_same_written_tr_linked C13_finish_is_c01_prune_linked))))). Qed.
 Print Assumptions C13_family_linked.
 
